@@ -12,7 +12,7 @@
 From Coq Require Import String List Bool Arith ZArith.
 Import ListNotations.
 From BQ Require Import qasm.QExp qasm.QExpThm qasm.QRegs qasm.QRegsThm qasm.QGate qasm.QGateThm
-  qasm.QTable qasm.QEnc qasm.QEncThm qasm.QRefute gen.QasmTable.
+  qasm.QTable qasm.QEnc qasm.QEncThm qasm.QRefute qasm.QProg qasm.QProgThm qasm.QProgEx qasm.QProgNm gen.QasmTable.
 
 (* ================================================================ expressions *)
 (* printer/parser round trip of the repaired flattening, for every tree of a shape the
@@ -248,3 +248,83 @@ Proof.
   split; [vm_compute; reflexivity|]. split; [vm_compute; reflexivity|].
   constructor; [|constructor; [|constructor]]; apply op_okb_ok; vm_compute; reflexivity.
 Qed.
+
+(* ===================================================== whole programs (encoder) *)
+(* QProg.encode_with = OPENQASM2Language.encode as a printer (register declaration, creg
+   declarations and `gate circuitgate_X` blocks of the gate set gs in its iteration order,
+   one statement per operation: library gates, CircuitGate calls, barrier, one `measure`
+   per entry of a MeasurementPlaceholder, reset); QProg.decode_prog = the visitor on those
+   statements.  For every circuit c and every order gs of its gate set satisfying the
+   boolean well-formedness circ_okb (library operations printable as in C17_roundtrip_ops,
+   CircuitGates nested to any depth whose body locations are in range, every CircuitGate
+   of c defined by gs, every measured classical register declared by gs exactly once):
+   decoding the printed program returns the classical registers and exactly the
+   operations of c - a CircuitGate comes back as the CircuitGate over the same body with
+   the operation's parameters, a measurement as one operation per measured qubit.
+   nm (the circuitgate_<hash> naming) is assumed injective on gate shapes. *)
+Theorem C17_program_roundtrip : forall (V : Type) (O : ops V) (fx : bool) (bound : fn -> bool) (vsplit : V -> actual V),
+  (forall v, aval O (vsplit v) = v) ->
+  forall nm : nat -> list (uop unit) -> nat, (forall a b c d, nm a b = nm c d -> a = c /\ b = d) ->
+  forall q n (gs c : list (cop V)), circ_okb nm lib_gates n gs c = true ->
+  decode_prog O fx bound vsplit dec_table lib_gates q n (encode_with nm vsplit gs c)
+  = Ok (all_cregs gs, concat (map expect c)).
+Proof. exact (fun V O fx bound vsplit Hs nm Hinj => prog_roundtrip O fx bound vsplit Hs nm Hinj dec_table lib_gates rt_tables_ok). Qed.
+
+(* hence the same operations, in the same order, on every qubit *)
+Theorem C17_program_roundtrip_per_qubit : forall (V : Type) (O : ops V) (fx : bool) (bound : fn -> bool) (vsplit : V -> actual V),
+  (forall v, aval O (vsplit v) = v) ->
+  forall nm : nat -> list (uop unit) -> nat, (forall a b c d, nm a b = nm c d -> a = c /\ b = d) ->
+  forall q n (gs c : list (cop V)), circ_okb nm lib_gates n gs c = true ->
+  exists d, decode_prog O fx bound vsplit dec_table lib_gates q n (encode_with nm vsplit gs c) = Ok (all_cregs gs, d) /\
+    forall x, dproj x d = dproj x (concat (map expect c)).
+Proof. exact (fun V O fx bound vsplit Hs nm Hinj => prog_roundtrip_proj O fx bound vsplit Hs nm Hinj dec_table lib_gates rt_tables_ok). Qed.
+
+(* the instantiation step on its own: a definition block printed for a body is accepted,
+   and calling it with the concatenated parameters of ANY body of the same shape rebuilds
+   that body (this is where C17_gate_def_formals_* meet CustomGateDef.build_op) *)
+Theorem C17_gate_def_instantiates : forall (V : Type) (O : ops V) (fx : bool) (bound : fn -> bool) (vsplit : V -> actual V),
+  (forall v, aval O (vsplit v) = v) ->
+  forall nm : nat -> list (uop unit) -> nat, (forall a b c d, nm a b = nm c d -> a = c /\ b = d) ->
+  forall env nv (os0 : list (uop V)), Inv O fx bound vsplit nm env ->
+  forallb (uop_okb lib_gates) os0 = true ->
+  forallb (fun b => forallb (fun j => Nat.ltb j nv) (uloc b)) os0 = true ->
+  Forall (defined nm env) os0 ->
+  exists g, compile_def dec_table lib_gates env (length (params_of os0)) nv (blines nm os0 0) = Ok g /\
+    forall os : list (uop V), map shape_of os = map shape_of os0 ->
+    forall loc, build O fx bound vsplit g loc (params_of os) = Some (ICirc nv (map erase os) loc).
+Proof. exact (fun V O fx bound vsplit Hs nm Hinj => def_instantiates O fx bound vsplit Hs nm Hinj dec_table lib_gates rt_tables_ok). Qed.
+
+(* finding C17-creg: a gate set with two MeasurementPlaceholders that carry a classical
+   register (the decoder produces exactly that for two `measure q[i] -> c[j];`
+   statements) is printed with the register declared twice; the decoder rejects it *)
+Theorem C17_program_creg_redeclared : forall (V : Type) (O : ops V) (fx : bool) (bound : fn -> bool) (vsplit : V -> actual V)
+  (nm : nat -> list (uop unit) -> nat) q n r cr ms1 l1 ms2 l2 (c : list (cop V)),
+  decode_prog O fx bound vsplit dec_table lib_gates q n
+    (encode_with nm vsplit [CMeasure (r :: cr) ms1 l1; CMeasure (r :: cr) ms2 l2] c) = ErrLang.
+Proof. exact (fun V O fx bound vsplit nm => creg_redeclared O fx bound vsplit nm dec_table lib_gates). Qed.
+
+(* non-vacuity: a 3-qubit circuit with a CircuitGate nested in a CircuitGate (used twice),
+   a barrier, a reset and a two-qubit measurement satisfies circ_okb; its printed program
+   has 10 statements and decodes to the expected operations *)
+Example C17_program_nonvacuous :
+  circ_okb ex_nm lib_gates 3 ex_gs ex_circ = true /\
+  decode_prog Zops true cur_bound zsplit dec_table lib_gates 0 3 (encode_with ex_nm zsplit ex_gs ex_circ)
+    = Ok ([(0, 3)], concat (map expect ex_circ)) /\
+  length (encode_with ex_nm zsplit ex_gs ex_circ) = 10 /\
+  uparams ex_mid = [7; 1; -2; 3; 5; -4]%Z /\
+  nth_error (encode_with ex_nm zsplit ex_gs ex_circ) 2 =
+    Some (SGateDef 34 6 3 [mkBL (KSpell (gid "rx")) [0] [1]; mkBL (KCirc 23) [1; 2; 3; 4] [2; 0];
+                           mkBL (KSpell (gid "cx")) [] [0; 1]; mkBL (KSpell (gid "rz")) [5] [0]]).
+Proof. exact prog_example. Qed.
+
+Example C17_program_creg_witness :
+  decode_prog Zops true cur_bound zsplit dec_table lib_gates 0 2
+    (encode_with ex_nm zsplit [CMeasure [(0, 2)] [(0, (0, 0))] [0]; CMeasure [(0, 2)] [(1, (0, 1))] [1]]
+                              [CMeasure [(0, 2)] [(0, (0, 0))] [0]; CMeasure [(0, 2)] [(1, (0, 1))] [1]])
+  = ErrLang.
+Proof. exact creg_example. Qed.
+
+(* the naming hypothesis is satisfiable: an injective naming of gate shapes exists *)
+Example C17_program_naming_exists :
+  exists nm : nat -> list (uop unit) -> nat, forall a b c d, nm a b = nm c d -> a = c /\ b = d.
+Proof. exact (ex_intro _ cantor_nm cantor_nm_inj). Qed.
